@@ -113,6 +113,27 @@ def unmark (m : Option V) : HM V V :=
   | some v => pure v
   | none => throw "NOTSET-used-as-a-value"
 
+/-! containers kept in `obj` states (a `deque` / a `set`), as lists through the `PyAlg` interface; the handlers mutate them in place
+(`q.append(x)`, `q.popleft()`, `s.add(k)`): the only references are the slot and a local variable, so the translator writes
+the new value back to the slot -/
+
+/-- `q.popleft()` : the deque without its first element -/
+def popleft [PyAlg V] (q : V) : Except Err V := do
+  let l ← PyAlg.elems q
+  match l with
+  | [] => throw "IndexError"
+  | _ :: r => pure (PyAlg.lst r)
+
+/-- `k in s` -/
+def contains [PyAlg V] (s k : V) : Except Err Bool := do
+  let l ← PyAlg.elems s
+  pure (l.any (fun x => PyAlg.eq x k))
+
+/-- `s.add(k)` (newest first, as the model keeps its list of seen keys) -/
+def setAdd [PyAlg V] (s k : V) : Except Err V := do
+  let l ← PyAlg.elems s
+  pure (PyAlg.lst (k :: l))
+
 /-- run a handler on a store, from an empty output list: the exception that escaped (if any), the store, the emitted events -/
 def runH (m : HM V Unit) (stores : Nat → Nat → Slot V) : Except Err Unit × (Nat → Nat → Slot V) × List (Ev V) :=
   let r := (ExceptT.run m).run { stores := stores, out := [] }
